@@ -57,8 +57,8 @@ def _decide(a, b, which):
     the solver again could only return the same answer."""
     if a is b:
         return which == 'eq'
-    if a.r is not None and b.r is not None:
-        # both keys come from the strictly ordered pre-state list: the
+    if a.r is not None and b.r is not None and a.g == b.g:
+        # both keys come from the same strictly ordered list: the
         # precondition k0 < k1 < ... already implies the outcome
         return (a.r < b.r) if which == 'lt' else (a.r > b.r) if which == 'gt' else (a.r == b.r)
     if a.s > b.s:
@@ -90,11 +90,12 @@ def _decide(a, b, which):
 class K:
     """v: payload (symbolic int); r: optional concrete rank among the keys of
     the pre-state (which are strictly ordered by the obligation's precondition)."""
-    __slots__ = ('v', 'r', 's')
+    __slots__ = ('v', 'r', 's', 'g')
 
-    def __init__(self, v, r=None):
+    def __init__(self, v, r=None, g=0):
         self.v = v
         self.r = r
+        self.g = g                  # group: ranks are comparable inside one group only
         CTL['serial'] += 1
         self.s = CTL['serial']      # deterministic creation order (memo orientation)
 
